@@ -517,6 +517,21 @@ class TypeAliasValue(Value):
     def get_type_value(self) -> Value:
         return self.get_value().get_type_value()
 
+    def substitute_typevars(self, typevars: TypeVarMap) -> Value:
+        if not self.type_arguments:
+            return self
+        return TypeAliasValue(
+            self.name,
+            self.module,
+            self.alias,
+            tuple(arg.substitute_typevars(typevars) for arg in self.type_arguments),
+        )
+
+    def walk_values(self) -> Iterable[Value]:
+        yield self
+        for arg in self.type_arguments:
+            yield from arg.walk_values()
+
     def can_assign(self, other: Value, ctx: CanAssignContext) -> CanAssign:
         if isinstance(other, TypeAliasValue) and self.alias is other.alias:
             return {}
@@ -771,6 +786,10 @@ class UnboundMethodValue(Value):
         if isinstance(signature, pyanalyze.signature.BoundMethodSignature):
             signature = signature.get_signature(ctx=ctx)
         return signature
+
+    def walk_values(self) -> Iterable[Value]:
+        yield self
+        yield from self.composite.value.walk_values()
 
     def substitute_typevars(self, typevars: TypeVarMap) -> "Value":
         return UnboundMethodValue(
@@ -1703,6 +1722,8 @@ class TypedDictValue(GenericValue):
         yield self
         for entry in self.items.values():
             yield from entry.typ.walk_values()
+        if self.extra_keys is not None:
+            yield from self.extra_keys.walk_values()
 
 
 @dataclass(unsafe_hash=True, init=False)
@@ -2657,6 +2678,13 @@ class UnpackedValue(Value):
     """Represents the result of PEP 646's Unpack operator."""
 
     value: Value
+
+    def substitute_typevars(self, typevars: TypeVarMap) -> Value:
+        return UnpackedValue(self.value.substitute_typevars(typevars))
+
+    def walk_values(self) -> Iterable[Value]:
+        yield self
+        yield from self.value.walk_values()
 
     def get_elements(self) -> Optional[Sequence[tuple[bool, Value]]]:
         if isinstance(self.value, SequenceValue) and self.value.typ is tuple:
